@@ -106,26 +106,35 @@ def Fx.sliceWrite (s : Fx) (pos : Nat) (bs : Bytes) : PyM Fx :=
 
 abbrev Item := Key × UInt64 × UInt64 × Nat
 
-/-- the `while pos < used` loop; `fuel` bounds the iterations (every iteration advances `pos`), running out of it is
-`.timeout` and is proved impossible -/
-def readLoop (data : Bytes) (used : Nat) : Nat → Nat → PyM (List Item)
-  | 0, pos => if pos < used then .error .timeout else .ok []
-  | fuel + 1, pos =>
-    if pos < used then do
-      let el ← unpackInt data pos
-      if el < 0 then .error .timeout      -- negative length field: not modelled
-      else
-        let n := el.toNat
-        if n + pos > used then .error .runtimeError
-        else do
-          let pos1 := pos + lenFieldSkip
-          let kb := slice data pos1 n
-          let pos2 := pos1 + paddedLenReader n
-          let (v, t) ← unpackTwoDoubles data pos2
-          let key ← decodeKey kb
-          let rest ← readLoop data used fuel (pos2 + valueSkip)
-          .ok ((key, v, t, pos2) :: rest)
-    else .ok []
+/-- the `while pos < used` loop, tail-recursive (`acc` = the items yielded so far, newest first).  `fuel` bounds the
+iterations; running out of it, or an iteration that does not advance `pos` (the real loop would spin for ever), is
+`.timeout`; both are proved impossible -/
+def readLoopAcc (data : Bytes) (used : Nat) : Nat → Nat → List Item → PyM (List Item)
+  | 0, pos, acc => if pos < used then .error .timeout else .ok acc.reverse
+  | fuel + 1, pos, acc =>
+    if pos < used then
+      match unpackInt data pos with
+      | .error e => .error e
+      | .ok el =>
+        if el < 0 then .error .timeout      -- negative length field: not modelled
+        else
+          let n := el.toNat
+          if n + pos > used then .error .runtimeError
+          else
+            let pos1 := pos + lenFieldSkip
+            let kb := slice data pos1 n
+            let pos2 := pos1 + paddedLenReader n
+            match unpackTwoDoubles data pos2 with
+            | .error e => .error e
+            | .ok (v, t) =>
+              match decodeKey kb with
+              | .error e => .error e
+              | .ok key =>
+                if pos2 + valueSkip ≤ pos then .error .timeout      -- no progress
+                else readLoopAcc data used fuel (pos2 + valueSkip) ((key, v, t, pos2) :: acc)
+    else .ok acc.reverse
+
+def readLoop (data : Bytes) (used fuel pos : Nat) : PyM (List Item) := readLoopAcc data used fuel pos []
 
 /-- `_read_all_values(data, used)`, fully iterated -/
 def readAllValuesRaw (data : Bytes) (used : Int) : PyM (List Item) := do
@@ -184,9 +193,11 @@ def init (initSize : Nat) (file : Bytes) : PyM (MmapedDict × List Effect) := do
 def growCaps : Nat → Nat → Nat → PyM (List Nat)
   | 0, cap, need => if need > cap then .error .timeout else .ok []
   | fuel + 1, cap, need =>
-    if need > cap then do
-      let r ← growCaps fuel (growFactor * cap) need
-      .ok (growFactor * cap :: r)
+    if need > cap then
+      if growFactor * cap ≤ cap then .error .timeout      -- the capacity does not grow: the real loop would spin for ever
+      else do
+        let r ← growCaps fuel (growFactor * cap) need
+        .ok (growFactor * cap :: r)
     else .ok []
 
 /-- the bytes `_init_value` writes: `struct.pack('i{n}sdd', len(encoded), padded, 0.0, 0.0)` (native alignment), or — if the
